@@ -413,15 +413,24 @@ fn edit_text(t: &TextRef, txn: &mut TransactionMut, r: &mut Rng, cfg: &EditCfg, 
 fn edit_array(a: &ArrayRef, txn: &mut TransactionMut, r: &mut Rng, cfg: &EditCfg, script: &mut Vec<String>, name: &str, tag: &mut u64) {
     let len = a.len(txn);
     let choice = r.below(10);
+    // placed where inserted: the array afterwards is the array before with the new values spliced in at the index (elements are
+    // compared by a shallow print); a mismatch is reported through the script (entries starting with "!!PLACEMENT")
+    let shallow = |txn: &TransactionMut| -> Vec<String> { a.iter(txn).map(|o| match o { Out::Any(x) => print_any(&x), Out::YMap(_) => "YMap".into(), Out::YArray(_) => "YArray".into(), Out::YText(_) => "YText".into(), _ => "Y?".into() }).collect() };
     if choice < 3 || len == 0 {
         let p = r.below(len as u64 + 1) as u32; *tag += 1; let v = Any::Number((*tag * 1000 + r.below(7)) as f64);
         script.push(format!("{name}.insert({p},{})", print_any(&v)));
+        let mut exp = shallow(txn); exp.insert(p as usize, print_any(&v));
         a.insert(txn, p, v);
+        let got = shallow(txn);
+        if got != exp { script.push(format!("!!PLACEMENT {name}.insert({p},..): expected {exp:?}, the array is {got:?}")); }
     } else if choice < 5 {
         let p = r.below(len as u64 + 1) as u32;
         let vs: Vec<Any> = (0..r.range(2, 3)).map(|_| { *tag += 1; if r.chance(1, 4) { rand_any(r, 0) } else { Any::Number((*tag * 1000) as f64) } }).collect();
         script.push(format!("{name}.insert_range({p},[{}])", vs.iter().map(print_any).collect::<Vec<_>>().join(",")));
+        let mut exp = shallow(txn); for (j, v) in vs.iter().enumerate() { exp.insert(p as usize + j, print_any(v)); }
         a.insert_range(txn, p, vs);
+        let got = shallow(txn);
+        if got != exp { script.push(format!("!!PLACEMENT {name}.insert_range({p},..): expected {exp:?}, the array is {got:?}")); }
     } else if choice < 7 && cfg.deletes {
         let p = r.below(len as u64) as u32; let l = r.range(1, (len - p).min(3) as u64) as u32;
         script.push(format!("{name}.remove_range({p},{l})"));
